@@ -134,7 +134,7 @@ Record AuxH c : Prop := mkAuxH {
   A_fin : forall st, In st (sc_strms c) -> st_headersFinished st = false -> st_id st = sc_expectCont c;
   A_ec : forall st, sc_expectCont c <> 0 -> tbl c (sc_expectCont c) = Some st -> st_headersFinished st = false;
   A_ec_odd : sc_expectCont c <> 0 -> N.odd (sc_expectCont c) = true;
-  A_disc : sc_discardID c <> 0 -> tbl c (sc_discardID c) = None
+  A_disc : sc_discardID c <> 0 -> tbl c (sc_discardID c) = None /\ sc_discardID c <= sc_highestID c
 }.
 
 Definition Aux c : Prop := AuxT c /\ AuxH c.
